@@ -1,9 +1,12 @@
 package b2f
 
 import (
+	"bytes"
+	stdgzip "compress/gzip"
 	"encoding/json"
 	"flag"
 	"fmt"
+	"io"
 	"math/rand"
 	"os"
 	"sort"
@@ -491,6 +494,15 @@ func checksHold(altered []byte, start int, csize, size int, gzip bool) bool {
 	ok := f["hdrStruct"].(bool) && f["sumOK"].(bool) && f["offset"].(int) == 0 && f["nbytes"].(int) == csize
 	if !gzip {
 		ok = ok && f["crcOK"].(bool) && f["usize"].(int) == size
+	} else if ok {
+		// gzip payloads carry their own integrity data (CRC-32 and length in the trailer): judged with the standard library
+		pl, _ := f["payload"].([]byte)
+		zr, err := stdgzip.NewReader(bytes.NewReader(pl))
+		if err != nil {
+			return false
+		}
+		plain, err := io.ReadAll(zr)
+		ok = err == nil && len(plain) == size
 	}
 	return ok
 }
@@ -582,6 +594,14 @@ func MainC04(args []string) int {
 				add(&Fault{AltKind: "sub", At: o, Val: v}, "sub-struct")
 			}
 		}
+		// the one-byte header length wraps at 256: 255, 256, 257 and 512 bytes inserted into the title, length byte untouched
+		for _, n := range []int{255, 256, 257, 512} {
+			ins := make([]int, n)
+			for i := range ins {
+				ins[i] = 'A' + i%26
+			}
+			add(&Fault{AltKind: "edit", InsAt: map[int][]int{a + 3: ins}}, "hdr-insert-wrap")
+		}
 		// sum-compensating pairs inside block data: adjacent and distant positions
 		var dataPos, blkPos []int
 		pos := dataStart
@@ -656,6 +676,12 @@ func MainC04(args []string) int {
 				cp := dataPos[6+rng.Intn(len(dataPos)-6)]
 				set[cp] = (int(stream[cp]) + delta) & 0xff
 				add(&Fault{AltKind: "set", Set: set}, "size-field")
+			}
+		}
+		if gz {
+			// adjacent +1 / -1 pairs: the smallest sum-neutral damage, all over the payload
+			for i := 0; i+1 < len(dataPos) && i < 400; i += 1 + len(dataPos)/150 {
+				add(&Fault{AltKind: "pair", At: dataPos[i], At2: dataPos[i+1], Delta: 1}, "pair-adjacent")
 			}
 		}
 		for i := 0; i < *pairs && len(dataPos) > 1; i++ {
